@@ -53,6 +53,9 @@ def make_program(name, args):
 
 def run_subprocess(name, args, timeout=600, env=None):
     e = dict(os.environ)
+    repo = os.environ.get("VERIF_REPO", "/repo")
+    # the console script must import the tree under test (editable install points at /repo)
+    e["PYTHONPATH"] = repo + os.pathsep + e.get("PYTHONPATH", "")
     if env:
         e.update(env)
     p = subprocess.run([MCHAP_BIN, name] + [str(a) for a in args], capture_output=True, text=True, timeout=timeout, env=e)
